@@ -43,7 +43,7 @@ CHECKS = {
                 text="Every text up to the length bound over {a, é, newline, space, 😀} x every boundary position x file name absent/present (colours off and forced on), plus long-line families: no panic, location line, printed source line and caret column equal the closed form.",
                 ref="§3 C11"),
     "C13": dict(engine="e1-conform", technique="bounded-exhaustive differential exploration: >Rule vs parenthesised body in every context, real-vs-real and against the reference",
-                text="Every one-hole context up to the node bound x 8 included bodies x 6 directive sets on the included rule x skipping/non-skipping includer, compiled twice (include / inlined): identical Debug results and error positions on every input, both equal to the reference; compiler acceptance must agree.",
+                text="Every one-hole context up to the node bound x 8 included bodies x 6 directive sets on the included rule x skipping/non-skipping includer, compiled twice (include / inlined): identical Debug results and error positions on every input, both equal to the reference; compiler acceptance must agree; and the exact-type assertions computed for the inlined grammar must compile against the include variant's generated code (same public types, rustc as judge).",
                 ref="§3 C13"),
     "C14": dict(engine="e1-conform", technique="bounded-exhaustive enumeration of grammars x inputs x environment answers of the user functions (deviation-bounded breadth-first search over answer tables)",
                 text="Checks on struct/alias/enum/@string/@string @position/@char rules and extern rules (with and without result type, with and without user context) in every context up to the node bound; for every input the answer tables are explored breadth-first from the default up to the deviation bound; result and every recorded argument must equal the reference under the same table.",
